@@ -10,6 +10,9 @@ Model (JSON):
             "pth": bool,               # a site-style .pth file with an `import <top>` line in the search root
             "via": "load" | "git",     # (static) git: the tree is committed and loaded with griffe.load_git(ref="HEAD")
             "op": "load" | "inspect" | "inspect_paths", "inspect_at": int,   # (fault) griffe.inspect(name, filepath=..) without/with import_paths
+            "construct": "kwargs" | "attrs",   # attrs: GriffeLoader built with the opposite inspection settings, then the public
+                                               # attributes allow_inspection / force_inspection are set before loading
+            "syspath_mod": None | {"at": int, "how": "rebind" | "inplace" | "copy"},   # (fault) one module body tampers with sys.path
             "fault": None | {"at": int, "type": "exc" | "exit" | "dep"}}   # only kind == "fault"
     pkg  = {"layout": "pkg" | "mod" | "ns" | "pyc" | "so",   # regular package / single module / PEP 420 namespace dir /
                                                              # source-less name.pyc (importable, invisible to the finder) /
@@ -101,11 +104,21 @@ def decoys(pkg, name: str) -> list[dict]:
     return out
 
 
-def _body(dotted: str, sentinel: str, imports: list[str], exports: list[str], fault: str | None, missing: str, stub: bool) -> str:
+SYSPATH_TAMPER = {
+    # analysed code that changes the import path at import time (it runs while Griffe's temporary sys.path is installed)
+    "rebind": "import sys as _s, os as _o; _s.path = [_o.path.dirname(_o.path.abspath(__file__))] + _s.path",
+    "inplace": "import sys as _s, os as _o; _s.path.insert(0, _o.path.dirname(_o.path.abspath(__file__))); _s.path.append('/nonexistent-c15')",
+    "copy": "import sys as _s; _s.path = list(_s.path)",
+}
+
+
+def _body(dotted: str, sentinel: str, imports: list[str], exports: list[str], fault: str | None, missing: str, stub: bool, tamper: str | None = None) -> str:
     lines = [
         f'"""Module {dotted}."""',
         f"with open({sentinel!r}, 'a') as _sentinel: _sentinel.write({dotted + chr(10)!r})",
     ]
+    if tamper:
+        lines.append(SYSPATH_TAMPER[tamper])
     lines += imports
     if exports:
         lines.append(f"__all__ = {exports!r}")
@@ -141,6 +154,8 @@ def render(case, sentinel: str) -> dict:
     fault_mod = None
     if fault and all_mods:
         fault_mod = all_mods[fault["at"] % len(all_mods)]["dotted"]
+    tamper = case.get("syspath_mod")
+    tamper_mod = all_mods[tamper["at"] % len(all_mods)]["dotted"] if tamper and all_mods else None
     files: dict = {0: {}, 1: {}}
     out_decoys = []
     for pi, (pkg, name) in enumerate(zip(case["pkgs"], names)):
@@ -163,7 +178,7 @@ def render(case, sentinel: str) -> dict:
             if not node.get("export"):
                 exports = []
             ft = fault["type"] if fault_mod == m["dotted"] else None
-            src = _body(m["dotted"], sentinel, imports, exports, ft, missing, stub=False)
+            src = _body(m["dotted"], sentinel, imports, exports, ft, missing, stub=False, tamper=tamper["how"] if tamper_mod == m["dotted"] else None)
             if m["kind"] == "pyc":
                 root[f"{name}.pyc"] = _pyc_bytes(src, f"{name}.py")
             elif m["kind"] == "so":
@@ -187,7 +202,7 @@ def render(case, sentinel: str) -> dict:
     if case.get("pth"):
         # what site.py would *execute*; Griffe's finder must only read it
         files[0][f"{names[0]}.pth"] = f"import {names[0]}\n".encode()
-    return {"names": names, "files": files, "modules": mods, "decoys": out_decoys, "fault_module": fault_mod, "missing": missing}
+    return {"names": names, "files": files, "modules": mods, "decoys": out_decoys, "fault_module": fault_mod, "tamper_module": tamper_mod, "missing": missing}
 
 
 def write_tree(files: dict, roots: list[Path]) -> None:
@@ -248,6 +263,7 @@ def strategy():
             "how": hows,
             "target": targets,
             "pth": st.sampled_from([False, False, True]),
+            "construct": st.sampled_from(["kwargs", "kwargs", "attrs"]),
             "via": st.sampled_from(["load"] * 5 + ["git"]),  # git: commit the tree, load it with griffe.load_git(ref="HEAD")
         }
     )
@@ -262,6 +278,11 @@ def strategy():
             "pth": st.just(False),
             "op": st.sampled_from(["load", "load", "load", "inspect", "inspect", "inspect_paths"]),  # inspect: griffe.inspect(name, filepath=...)
             "inspect_at": st.integers(0, 11),
+            "construct": st.sampled_from(["kwargs", "kwargs", "attrs"]),
+            "syspath_mod": st.one_of(
+                st.none(),
+                st.fixed_dictionaries({"at": st.sampled_from([0, 0, 1, 2, 3, 5]), "how": st.sampled_from(["rebind", "rebind", "inplace", "copy"])}),
+            ),
             "fault": st.one_of(
                 st.none(),
                 st.fixed_dictionaries({"at": st.integers(0, 11), "type": st.sampled_from(["exc", "exit", "dep"])}),
